@@ -694,6 +694,38 @@ def cli_tables(ctx):
                 break
         if len(lines) != len(eids):
             ctx.violate('cli-lookup-differs', 'lookup of %d elements printed %d lines' % (len(eids), len(lines)), spec)
+    # the global options -t / -d are written BEFORE the command: `lookup`, `compile` and `info -t` then work with that tables root
+    # (a root that differs from the bundled one in element 012101 of version 33: scale 1, 18 bits)
+    if ctx.shard % 4 == 0 or not ctx.quick:
+        from mon.cli import alt_tables_root
+        root = alt_tables_root(os.environ.get('VERIF_SCRATCH') or os.path.join(os.environ.get('VERIF_DIR', '/verif'), '.scratch'))
+        Balt, Dalt = R.load_tables(0, 0, 0, 33, 0, root=root)
+        spec = dict(part='cli-tables-root-option')
+        for argv, what in ((['-t', root, 'lookup', '012101', '--master-table-version', '33'], 'before-the-command'),
+                           (['-t', root + os.sep, 'lookup', '012101,001001', '--master-table-version', '33'], 'with-trailing-slash')):
+            so, se, exc, code = run_cli(argv)
+            ctx.count('cli_lookup_with_tables_root_option')
+            ctx.evaluated(('lookup-t', what), True)
+            name, unit, scale, ref, width = Balt[12101][:5]
+            lines = [ln for ln in so.splitlines() if ln.strip()]
+            if exc is not None or se.strip() or not lines:
+                ctx.violate('cli-lookup-fails/tables-root-option', 'pybufrkit -t <root> lookup failed: %r %s' % (exc, se[:120]), dict(spec, how=what))
+            elif not lines[0].endswith(', %s, %s, %s, %s' % (unit, scale, ref, width)):
+                ctx.violate('cli-lookup-differs/tables-root-option/' + what, 'pybufrkit -t <root> lookup 012101 printed %r, Table B of that root has scale %r reference %r width %r'
+                            % (lines[0][:120], scale, ref, width), dict(spec, how=what))
+        # compile: the compiled template printed for [012101] carries the element of THAT root (its width shows in the statement)
+        try:
+            so_a, se_a, exc_a, _ = run_cli(['-t', root, 'compile', '012101', '--master-table-version', '33'])
+            so_b, se_b, exc_b, _ = run_cli(['compile', '012101', '--master-table-version', '33'])
+            ctx.count('cli_compile_with_tables_root_option')
+            ctx.evaluated(('compile-t',), True)
+            if exc_a is not None or se_a.strip() or not so_a.strip():
+                ctx.violate('cli-compile-fails/tables-root-option', 'pybufrkit -t <root> compile failed: %r %s' % (exc_a, se_a[:120]), spec)
+            elif exc_b is None and so_a == so_b and root not in so_b:
+                ctx.violate('cli-compile-differs/tables-root-option', 'pybufrkit -t <root> compile 012101 prints the same template as without -t although '
+                            'the element is defined differently in that root', spec)
+        except Exception as e:
+            ctx.notes.append('compile -t probe failed: %r' % (e,))
     repo = os.environ.get('VERIF_REPO', '/repo')
     import glob
     files = sorted(glob.glob(os.path.join(repo, 'tests', 'data', '*.bufr')))
